@@ -15,7 +15,7 @@ from mc.harness import TableEvaluator, close, make_manager, validate
 PROPERTY = "C01"
 RULE = (
     "E1 product enumeration through EnsembleEvaluator.calculate: R x realization-weight vector x (n_obj,n_con) x "
-    "objective weights x EVERY estimator map F->{mean,stddev} x EVERY filter map F->{none,sort-objective,cvar-objective} "
+    "objective weights x EVERY estimator map F->{mean,stddev} x EVERY filter map F->{none,sort-objective,cvar-objective} (and, with constraints, F->{none,sort-constraint,cvar-constraint}) "
     "x EVERY failure mask over realizations (rotated per batch row) x NaN column x realization_min_success in {0,1,R}. "
     "Per case the same three points are evaluated as single vectors, as a 1xV batch, as a 3-row batch, in a different "
     "order on a used evaluator, and through the functions+gradients path; all must agree with each other and with the "
@@ -60,7 +60,7 @@ def table(n_real: int, n_fun: int, variant: int, seed: int) -> np.ndarray:
 
 
 def build_config(R: int, wname: str, n_obj: int, n_con: int, ow: list[float], emap: tuple[int, ...],
-                 fmap: tuple[int, ...], rms: int) -> dict[str, Any]:
+                 fmap: tuple[int, ...], rms: int, fset: str = "obj") -> dict[str, Any]:
     config: dict[str, Any] = {
         "variables": {"initial_values": [0.0]},
         "realizations": {"weights": weight_vectors(R)[wname], "realization_min_success": rms},
@@ -76,6 +76,12 @@ def build_config(R: int, wname: str, n_obj: int, n_con: int, ow: list[float], em
         ],
         "gradient": {"number_of_perturbations": 1, "perturbation_magnitudes": 0.001},
     }
+    if fset == "con":
+        # the two constraint flavours of the filters, ranking the last constraint
+        config["realization_filters"] = [
+            {"method": "sort-constraint", "options": {"sort": n_con - 1, "first": 0, "last": max(0, R - 2)}},
+            {"method": "cvar-constraint", "options": {"sort": n_con - 1, "percentile": 0.5}},
+        ]
     if n_con:
         config["nonlinear_constraints"] = {
             "lower_bounds": [0.0] * n_con,
@@ -155,7 +161,7 @@ def judge(case: dict[str, Any]) -> Judgement:
     F = n_obj + n_con
     emap, fmap = tuple(case["emap"]), tuple(case["fmap"])
     mask, nan_col = case["mask"], case["nan_col"]
-    config = validate(build_config(R, case["weights"], n_obj, n_con, case["ow"], emap, fmap, case["rms"]))
+    config = validate(build_config(R, case["weights"], n_obj, n_con, case["ow"], emap, fmap, case["rms"], case.get("fset", "obj")))
     tab = table(R, F, case["variant"], case["seed"])
 
     def fn(x: np.ndarray, r: int) -> np.ndarray:
@@ -298,7 +304,10 @@ def shards(tier: str, seed: int) -> list[dict[str, Any]]:
                             emaps = list(itertools.product((0, 1), repeat=F))
                             for group in core.chunked(emaps, 1 if F >= 4 else 4):
                                 out.append({"R": R, "n_obj": n_obj, "n_con": n_con, "ow": ow, "weights": wname,
-                                            "variant": variant, "emaps": group, "seed": seed, "tier": tier})
+                                            "variant": variant, "emaps": group, "seed": seed, "tier": tier, "fset": "obj"})
+                                # constraint flavours of the filters (quick: one objective; thorough: F<=3)
+                                if n_con and F <= 3 and (tier == "thorough" or n_obj == 1):
+                                    out.append({**out[-1], "fset": "con"})
     return out
 
 
@@ -315,9 +324,11 @@ def run_shard(shard: dict[str, Any]) -> core.ShardResult:
                     for rms in sorted({0, 1, R} if shard["tier"] == "thorough" or R < 3 else {0, R}):
                         case = {"R": R, "n_obj": n_obj, "n_con": n_con, "ow": shard["ow"], "weights": shard["weights"],
                                 "variant": shard["variant"], "emap": list(emap), "fmap": list(fmap), "mask": mask,
-                                "nan_col": nan_col, "rms": rms, "seed": shard["seed"], "batch1": shard["tier"] == "thorough" or mask == 0}
+                                "nan_col": nan_col, "rms": rms, "seed": shard["seed"], "batch1": shard["tier"] == "thorough" or mask == 0,
+                                "fset": shard.get("fset", "obj")}
                         j = judge(case)
-                        rec.add((R, n_obj, n_con, tuple(shard["ow"]), shard["weights"], shard["variant"], emap, fmap, mask, nan_col, rms), case, j)
+                        rec.add((R, n_obj, n_con, tuple(shard["ow"]), shard["weights"], shard["variant"], emap, fmap, mask, nan_col, rms,
+                                 shard.get("fset", "obj")), case, j)
     return rec.finish()
 
 
